@@ -192,11 +192,16 @@ def g_new_shell(rng, cfg):
         share = {"mode": "exps", "d": rng.randrange(D)}
     else:
         share = {"mode": "both", "d": rng.randrange(D)}
+    coeffs = [[_coef(rng) for _ in range(M)] for _ in range(K)]
+    if rng.random() < 0.04:  # a degenerate but accepted contraction: one column of zeros (infinite norm_cont)
+        j = rng.randrange(M)
+        for row in coeffs:
+            row[j] = 0.0
     return {
         "op": "new_shell",
         "angmom": l,
         "exps": [_exp(rng) for _ in range(K)],
-        "coeffs": [[_coef(rng) for _ in range(M)] for _ in range(K)],
+        "coeffs": coeffs,
         "coeffs1d": M == 1 and rng.random() < 0.5,
         "coord": coord,
         "share": share,
@@ -398,6 +403,7 @@ def g_update(rng, cfg):
         "icenter": rng.choice([None, 0, 3]),
         "env": g_env(rng, cfg),
         "fault": g_fault(rng, cfg),
+        "twin_tol": math.exp(rng.uniform(math.log(1e-10), math.log(0.9))),
     }
 
 
@@ -439,7 +445,7 @@ def g_query(rng, cfg, fn=None):
                                   math.exp(rng.uniform(math.log(1e-3), math.log(0.9)))]),
         "symmetric": rng.random() < 0.5,
         "charges": rng.choice(["random", "random", "ghost", "ints"]),
-        "dm": rng.choice(["psd", "psd", "indef", "zero"]),
+        "dm": rng.choice(["psd", "psd", "indef", "zero", "nearsym"]),
         "cls": rng.choice(["Overlap", "KineticEnergyIntegral", "MomentumIntegral", "Moment", "Eval", "EvalDeriv",
                            "PointChargeIntegral", "AngularMomentumIntegral", "OverlapAsymmetric",
                            "ElectronRepulsionIntegral"]),
